@@ -546,28 +546,153 @@ mod proofs {
         forget(r); forget(heap);
     }
 
-    fn my_sort_by_key<T, K: Ord, F: FnMut(&T) -> K>(s: &mut [T], mut f: F) {
-        let n = s.len();
-        let mut i = 1;
-        while i < n {
-            let mut j = i;
-            while j > 0 && f(&s[j - 1]) > f(&s[j]) { s.swap(j - 1, j); j -= 1; }
-            i += 1;
+
+    fn mk_state(globals: Vec<String>, functions: Vec<(String, ConstantPoolIndex)>, entry_locals: Vec<Pointer>, heap: Vec<HeapObject>) -> State {
+        let gf = GlobalFrame::from(globals, Pointer::Null).unwrap();
+        let ff = GlobalFunctions::from(functions).unwrap();
+        let mut fs = FrameStack::from((gf, ff));
+        fs.push(crate::bytecode::state::Frame::from(None, entry_locals));   // Vec::new() + push => capacity 4, no realloc for 3 more frames
+        State { operand_stack: OperandStack::from(Vec::with_capacity(8)), frame_stack: fs, instruction_pointer: InstructionPointer::from(Address::from_usize(0)), heap: Heap::from(heap) }
+    }
+    #[kani::proof]
+    #[kani::unwind(4)]
+    #[kani::stub(std::fmt::format, fmt_stub)]
+    #[kani::stub(<AnyErr as std::ops::Drop>::drop, drop_stub)]
+    fn l2_call_function() {
+        let mut code = Vec::with_capacity(4);
+        code.push(OpCode::Return); code.push(OpCode::Return); code.push(OpCode::Return); code.push(OpCode::Return);
+        let mut cp = Vec::with_capacity(2);
+        cp.push(ProgramObject::String("f".to_string()));
+        cp.push(ProgramObject::Method { name: ConstantPoolIndex::new(0), parameters: Arity::new(2), locals: Size::new(1), code: AddressRange::from(2, 1) });
+        let program = prog(code, cp);
+        let mut fs = Vec::with_capacity(1); fs.push(("f".to_string(), ConstantPoolIndex::new(1)));
+        let mut state = mk_state(Vec::with_capacity(1), fs, Vec::with_capacity(1), Vec::with_capacity(1));
+        let a: i32 = kani::any(); let b: i32 = kani::any();
+        state.operand_stack.push(Pointer::from(99));
+        state.operand_stack.push(Pointer::from(a));
+        state.operand_stack.push(Pointer::from(b));
+        let given: u8 = kani::any(); kani::assume(given == 1 || given == 2);
+        let r = eval_call_function(&program, &mut state, &ConstantPoolIndex::new(0), &Arity::new(given));
+        if given == 2 {
+            assert!(r.is_ok());
+            assert!(state.instruction_pointer.get() == Some(Address::from_usize(2)));
+            {
+                let f = state.frame_stack.get_locals().unwrap();
+                assert!(*f.get(&LocalFrameIndex::new(0)).unwrap() == Pointer::from(a));
+                assert!(*f.get(&LocalFrameIndex::new(1)).unwrap() == Pointer::from(b));
+                assert!(*f.get(&LocalFrameIndex::new(2)).unwrap() == Pointer::Null);
+                assert!(f.get(&LocalFrameIndex::new(3)).is_err());
+            }
+            assert!(state.operand_stack.pop().unwrap() == Pointer::from(99));
+            let r2 = eval_return(&program, &mut state);
+            assert!(r2.is_ok());
+            assert!(state.instruction_pointer.get() == Some(Address::from_usize(1)));
+            forget(r2);
+        } else {
+            assert!(r.is_err());
         }
+        forget(r); forget(state); forget(program);
+    }
+    #[kani::proof]
+    #[kani::unwind(5)]
+    #[kani::stub(std::fmt::format, fmt_stub)]
+    #[kani::stub(<AnyErr as std::ops::Drop>::drop, drop_stub)]
+    fn f2_dispatch_parent() {
+        let mut code = Vec::with_capacity(3); code.push(OpCode::Return); code.push(OpCode::Return); code.push(OpCode::Return);
+        let mut cp = Vec::with_capacity(2);
+        cp.push(ProgramObject::String("m".to_string())); cp.push(ProgramObject::String("+".to_string()));
+        let program = prog(code, cp);
+        let method = ProgramObject::Method { name: ConstantPoolIndex::new(0), parameters: Arity::new(2), locals: Size::new(1), code: AddressRange::from(1, 1) };
+        let mut methods = IndexMap::new();
+        methods.insert("m".to_string(), method);
+        let mut mem = Vec::with_capacity(2);
+        mem.push(HeapObject::new_object(Pointer::Integer(40), IndexMap::new(), methods));
+        mem.push(HeapObject::new_object(Pointer::from(0usize), IndexMap::new(), IndexMap::new()));
+        let mut state = mk_state(Vec::with_capacity(1), Vec::with_capacity(1), Vec::with_capacity(1), mem);
+        let which: bool = kani::any();
+        let v: i32 = kani::any();
+        state.operand_stack.push(Pointer::from(1usize));
+        state.operand_stack.push(Pointer::from(v));
+        let r = eval_call_method(&program, &mut state, &ConstantPoolIndex::new(if which { 0 } else { 1 }), &Arity::new(2));
+        assert!(r.is_ok());
+        if which {
+            assert!(state.instruction_pointer.get() == Some(Address::from_usize(1)));
+            let f = state.frame_stack.get_locals().unwrap();
+            assert!(*f.get(&LocalFrameIndex::new(1)).unwrap() == Pointer::from(v));
+            assert!(*f.get(&LocalFrameIndex::new(2)).unwrap() == Pointer::Null);
+        } else {
+            assert!(state.operand_stack.pop().unwrap() == Pointer::from(40i32.wrapping_add(v)));
+        }
+        forget(r); forget(state); forget(program);
+    }
+
+    fn marker_obj() -> u32 { 5 }
+    #[kani::proof]
+    #[kani::unwind(3)]
+    fn v1_variant_push() {
+        let mut mem = Vec::with_capacity(1);
+        let mut e0 = Vec::with_capacity(1); e0.push(Pointer::Null);
+        mem.push(HeapObject::from_pointers(e0));
+        let heap = Heap::from(mem);
+        let t = match heap.dereference(&HeapIndex::from(0usize)) { Ok(HeapObject::Array(_)) => 1, Ok(HeapObject::Object(_)) => marker_obj(), Err(_) => marker_obj() + 1 };
+        assert!(t == 1);
+        forget(heap);
     }
     #[kani::proof]
     #[kani::unwind(3)]
+    fn v2_variant_vecmacro() {
+        let heap = Heap::from(vec![HeapObject::from_pointers(vec![Pointer::Null])]);
+        let t = match heap.dereference(&HeapIndex::from(0usize)) { Ok(HeapObject::Array(_)) => 1, Ok(HeapObject::Object(_)) => marker_obj(), Err(_) => marker_obj() + 1 };
+        assert!(t == 1);
+        forget(heap);
+    }
+    #[kani::proof]
+    #[kani::unwind(3)]
+    fn v3_variant_allocate() {
+        let mut heap = Heap::from(Vec::with_capacity(2));
+        let mut e0 = Vec::with_capacity(1); e0.push(Pointer::Null);
+        heap.allocate(HeapObject::from_pointers(e0));
+        let t = match heap.dereference(&HeapIndex::from(0usize)) { Ok(HeapObject::Array(_)) => 1, Ok(HeapObject::Object(_)) => marker_obj(), Err(_) => marker_obj() + 1 };
+        assert!(t == 1);
+        forget(heap);
+    }
+    #[kani::proof]
+    #[kani::unwind(4)]
     #[kani::stub(std::fmt::format, fmt_stub)]
     #[kani::stub(<AnyErr as std::ops::Drop>::drop, drop_stub)]
-    #[kani::stub(<[u8]>::sort_by_key, my_sort_by_key)]
-    fn k4_render_selfloop_sortstub() {
-        let mut mem = Vec::with_capacity(1);
-        let selfref: bool = kani::any();
-        let mut e0 = Vec::with_capacity(1);
-        e0.push(if selfref { Pointer::Reference(HeapIndex::from(0usize)) } else { Pointer::Null });
-        mem.push(HeapObject::from_pointers(e0));
-        let heap = Heap::from(mem);
-        let r = Pointer::Reference(HeapIndex::from(0usize)).evaluate_as_string(&heap);
-        forget(r); forget(heap);
+    fn l3_call_function_concrete_arity() {
+        let mut code = Vec::with_capacity(4);
+        code.push(OpCode::Return); code.push(OpCode::Return); code.push(OpCode::Return); code.push(OpCode::Return);
+        let mut cp = Vec::with_capacity(2);
+        cp.push(ProgramObject::String("f".to_string()));
+        cp.push(ProgramObject::Method { name: ConstantPoolIndex::new(0), parameters: Arity::new(2), locals: Size::new(1), code: AddressRange::from(2, 1) });
+        let program = prog(code, cp);
+        let mut fs = Vec::with_capacity(1); fs.push(("f".to_string(), ConstantPoolIndex::new(1)));
+        let mut state = mk_state(Vec::with_capacity(1), fs, Vec::with_capacity(1), Vec::with_capacity(1));
+        let a: i32 = kani::any(); let b: i32 = kani::any();
+        state.operand_stack.push(Pointer::from(99));
+        state.operand_stack.push(Pointer::from(a));
+        state.operand_stack.push(Pointer::from(b));
+        let given: u8 = 2;
+        let r = eval_call_function(&program, &mut state, &ConstantPoolIndex::new(0), &Arity::new(given));
+        if given == 2 {
+            assert!(r.is_ok());
+            assert!(state.instruction_pointer.get() == Some(Address::from_usize(2)));
+            {
+                let f = state.frame_stack.get_locals().unwrap();
+                assert!(*f.get(&LocalFrameIndex::new(0)).unwrap() == Pointer::from(a));
+                assert!(*f.get(&LocalFrameIndex::new(1)).unwrap() == Pointer::from(b));
+                assert!(*f.get(&LocalFrameIndex::new(2)).unwrap() == Pointer::Null);
+                assert!(f.get(&LocalFrameIndex::new(3)).is_err());
+            }
+            assert!(state.operand_stack.pop().unwrap() == Pointer::from(99));
+            let r2 = eval_return(&program, &mut state);
+            assert!(r2.is_ok());
+            assert!(state.instruction_pointer.get() == Some(Address::from_usize(1)));
+            forget(r2);
+        } else {
+            assert!(r.is_err());
+        }
+        forget(r); forget(state); forget(program);
     }
 }
